@@ -160,6 +160,8 @@ def run(tier, seed):
     results = runner.pmap(work, jobs)
 
     seen_san = {}
+    wit_by_key = {}
+    samples = {}
     for (sub, first, n, stride), sh in results:
         for cls, cnt in sh.K.items():
             ck.case(cls, cnt)
@@ -168,11 +170,11 @@ def run(tier, seed):
         for name, v in sh.R.items():
             ck.ratio(name, v, 1.0)
         ck.count("cases_" + sub, n)
-        if sub != "leak":
-            for s in sh.S[:1]:
-                ck.sample(s, limit=8)
+        for s in sh.S[:1]:
+            samples.setdefault(sub, []).append(s)
         for key, what, wit in sh.V:
             toks = wit.split()
+            wit_by_key.setdefault(key, "matdrv " + wit)
             ck.violation(key, what, dict(subcheck=toks[0], seed=int(toks[1]), case=int(toks[2]), cmd="matdrv " + wit,
                                          argv=[t for t in toks if not t.startswith("(") and not t.endswith(")")]))
         for key, cnt in sh.vcount.items():
@@ -186,7 +188,11 @@ def run(tier, seed):
         for cid, label, rr, one in sh.crashes:
             ck.count("process_deaths")
             w = _witness(sub, seed, cid, label, one)
-            prefix = ("leak:%s|" % label.split(":", 2)[-1]) if sub == "leak" else _san_prefix(rr)
+            if sub == "leak":     # label = leak:<Type>:<scenario>; the five container kinds share MemRep, other types keep their name
+                lp = label.split(":")
+                prefix = "leak:%s|" % (lp[2] if lp[1] in ("Mat", "Vec", "SymMat", "BandMat", "CovMat") and not lp[2].startswith(("operators", "transpose", "exception", "cholDec")) else ":".join(lp[1:]))
+            else:
+                prefix = _san_prefix(rr)
             skey = prefix + (rr.san["key"] if rr.san else "rc%s" % rr.rc)
             if skey not in seen_san:
                 # first sighting of this root cause: reproduce it from the single-case witness
@@ -201,8 +207,13 @@ def run(tier, seed):
                     ck.inconc("process death in a batch not reproduced by the single case")
                     w["note"] = "seen in batch only: " + " ".join(_argv("matdrv", sub, seed, first, n, stride, _params(tier, sub)))
             ck.count("sanitizer:" + label)
+            wit_by_key.setdefault(prefix + (rr.san["key"] if rr.san else ""), w["cmd"] + (" [LeakSanitizer on]" if sub == "leak" else ""))
             if not ck.sanitizer(rr, w, prefix=prefix):
                 ck.violation("death:" + label, "driver process ended abnormally rc=%s: %s" % (rr.rc, (rr.err or "")[-300:]), w)
+    for sub in ("exhaustive", "random", "history", "conform"):
+        for s in samples.get(sub, [])[:2]:
+            ck.sample(s, limit=8)
+    ck.counters["witness_by_key"] = wit_by_key
     ck.assumptions += [
         "operands of the equalities are scaled O(0.1..100): Mat::invert / cholDec / SVD / GSO use absolute or "
         "sqrt(eps)-relative pivot tolerances; smaller scales are outside 'numerically unambiguous' and not generated",
